@@ -1771,6 +1771,30 @@ Theorem odd_bucket_refuted :
   calls fx_demo odd_get_badesc = [].
 Proof. vm_compute. repeat split; reflexivity. Qed.
 
+(* the trigger of finding 2 per request: odd_request implies odd_bucket, and on the routes
+   outside it an odd bucket is addressed by its literal name: every gRPC-only route of bucket
+   "%62" (with an upload u1 in it) stays inside /buckets/%62 *)
+Lemma odd_request_odd : forall q, odd_request q = true -> odd_bucket (q_bucket q) = true.
+Proof. intros q H. unfold odd_request in H. apply andb_true_iff in H. exact (proj1 H). Qed.
+
+Definition fx_odd : fixture :=
+  [ ("/", true); ("/buckets", true); ("/buckets/%62", true); ("/buckets/%62/.uploads", true);
+    ("/buckets/%62/.uploads/u1", true); ("/buckets/%62/.uploads/u1/0001.part", false);
+    ("/buckets/%62/x", true); ("/buckets/%62/x/y", false); ("/buckets/b", true); ("/buckets/b/obj", false) ].
+Definition odd_grpc_reqs : list req :=
+  map (fun r => mk_req r "%62" "x/y" "u1" "0001.part" "" ["x/y"])
+      [RBatchDelete; RNewUpload; RComplete; RAbort; RListParts; RGetTag; RPutTag; RDelTag;
+       RList false "x/" "" true; RList true "" "x/y" false; RListUploads; RPutBucket; RDeleteBucket; RHeadBucket].
+
+Example odd_grpc_routes_contained :
+  forallb (fun q => negb (odd_request q) && odd_bucket (q_bucket q) &&
+                    negb (Nat.eqb (List.length (calls fx_odd q)) 0) &&
+                    forallb call_contained (calls fx_odd q) && candidates_contained fx_odd q) odd_grpc_reqs = true /\
+  map snd (calls fx_odd (mk_req RComplete "%62" "x/done" "u1" "0001.part" "" [])) =
+    [GList "/buckets/%62/.uploads/u1"; GLookup "/buckets/%62/.uploads" "u1"; GCreate "/buckets/%62/x" "done" false;
+     GDelete "/buckets/%62/.uploads" "u1" true].
+Proof. vm_compute. split; reflexivity. Qed.
+
 (* former finding 3 (repaired in /repo): POST /oth with the form field key = "er/obj" wrote
    /buckets/other/obj; it now writes /buckets/oth/er/obj, inside the bucket *)
 Definition post_noslash : req := rqb RPostPolicy "oth" "er/obj".
